@@ -90,3 +90,116 @@ void bad_rec_guard__fallthrough__bn_rec_win(uint8_t *win, size_t *len, const bn_
 	win[j++] = 1;
 	*len = j;
 }
+
+/* ------------------------------------------------------------------ CAP */
+void ok_cap__set_bit(bn_t a, uint_t bit) {
+	int d;
+	RLC_RIP(bit, d, bit);
+	bn_grow(a, d + 1);
+	a->dp[d] |= ((dig_t)1 << bit);
+}
+
+/* asks for d digits, stores digit number d */
+void bad_cap__set_bit(bn_t a, uint_t bit) {
+	int d;
+	RLC_RIP(bit, d, bit);
+	bn_grow(a, d);
+	a->dp[d] |= ((dig_t)1 << bit);
+}
+
+/* capacity requested from ->used before the carry digit is accounted for */
+void bad_cap__carry(bn_t c, const bn_t a) {
+	dig_t carry;
+	RLC_TRY {
+		c->used = a->used;
+		bn_grow(c, c->used);
+		carry = bn_lsh1_low(c->dp, a->dp, c->used);
+		if (carry != 0) {
+			c->dp[c->used] = carry;
+			(c->used)++;
+		}
+	} RLC_CATCH_ANY {
+		RLC_THROW(ERR_CAUGHT);
+	}
+}
+
+/* ------------------------------------------------------------------ COPY-IN */
+void ok_copy_in__bounded(const bn_t k) {
+	dig_t t[RLC_FP_DIGS];
+	if (k->used > RLC_FP_DIGS) {
+		RLC_THROW(ERR_NO_VALID);
+		return;
+	}
+	dv_copy(t, k->dp, k->used);
+}
+
+void bad_copy_in__unbounded(const bn_t k) {
+	dig_t t[RLC_FP_DIGS];
+	dv_copy(t, k->dp, k->used);
+}
+
+/* ------------------------------------------------------------------ N0 */
+void ok_n0__inv_sim(fp_t *c, const fp_t *a, int n) {
+	if (n == 0) {
+		return;
+	}
+	fp_copy(c[0], a[0]);
+	for (int i = 1; i < n; i++) {
+		fp_mul(c[i], c[i - 1], a[i]);
+	}
+	fp_inv(c[n - 1], c[n - 1]);
+}
+
+void bad_n0__inv_sim(fp_t *c, const fp_t *a, int n) {
+	fp_copy(c[0], a[0]);
+	for (int i = 1; i < n; i++) {
+		fp_mul(c[i], c[i - 1], a[i]);
+	}
+	fp_inv(c[n - 1], c[n - 1]);
+}
+
+/* ------------------------------------------------------------------ TYPESTATE (DYNAMIC allocation) */
+void ok_typestate__nulled(const bn_t a) {
+	bn_t t, u;
+	bn_null(t);
+	bn_null(u);
+	RLC_TRY {
+		bn_new(t);
+		bn_new(u);
+		bn_add(t, a, a);
+	} RLC_CATCH_ANY {
+		RLC_THROW(ERR_CAUGHT);
+	} RLC_FINALLY {
+		bn_free(t);
+		bn_free(u);
+	}
+}
+
+/* u is never nulled: when bn_new(t) fails the finaliser tests and frees an indeterminate pointer */
+void bad_typestate__never_nulled_only_dyn(const bn_t a) {
+	bn_t t, u;
+	bn_null(t);
+	RLC_TRY {
+		bn_new(t);
+		bn_new(u);
+		bn_add(t, a, a);
+	} RLC_CATCH_ANY {
+		RLC_THROW(ERR_CAUGHT);
+	} RLC_FINALLY {
+		bn_free(t);
+		bn_free(u);
+	}
+}
+
+/* ------------------------------------------------------------------ DIV0 */
+void ok_div0__guarded(dig_t *c, const bn_t a, dig_t b) {
+	if (b == 0) {
+		RLC_THROW(ERR_NO_VALID);
+		return;
+	}
+	*c = a->dp[0] % b;
+}
+
+void bad_div0__unguarded(dig_t *c, const bn_t a, dig_t b) {
+	*c = a->dp[0] % b;
+}
